@@ -77,6 +77,8 @@ private def run (f : String) (a : List PVal) : Option (PyM PVal) :=
   | "normalize_attr_value", [x] => some (Generated.Src.normalize_attr_value G x)
   | "TagAttrDict_setitem", [x, y, z] => some (Generated.Src.TagAttrDict_setitem G x y z)
   | "TagAttrDict_update", [x, y, z] => some (Generated.Src.TagAttrDict_update G x y z)
+  | "Tag_get_html_string", [x, y, z] => some (Generated.Src.Tag_get_html_string G 100000 x y z)
+  | "TagList_get_html_string", [x, y, z, u, v] => some (Generated.Src.TagList_get_html_string G 100000 x y z u v)
   | _, _ => none
 
 def srcOps : OpTable
